@@ -114,8 +114,8 @@ enum Shape {
 }
 
 /// random split tree over a producer of length `len`; `budget` bounds the number of nodes
-fn random_tree(r: &mut Rng, len: usize, shape: Shape, stop: f64, budget: &mut usize, depth: usize) -> Tree {
-  if *budget == 0 || depth > std::env::var("VH_DEPTH").ok().and_then(|s| s.parse().ok()).unwrap_or(400) || r.unit() < stop {
+fn random_tree(r: &mut Rng, len: usize, shape: Shape, stop: f64, budget: &mut usize, depth: usize, max_depth: usize) -> Tree {
+  if *budget == 0 || depth > max_depth || r.unit() < stop {
     return Tree::Leaf;
   }
   let k = match shape {
@@ -144,8 +144,8 @@ fn random_tree(r: &mut Rng, len: usize, shape: Shape, stop: f64, budget: &mut us
     },
   };
   *budget -= 1;
-  let l = random_tree(r, k, shape, stop, budget, depth + 1);
-  let rt = random_tree(r, len - k, shape, stop, budget, depth + 1);
+  let l = random_tree(r, k, shape, stop, budget, depth + 1, max_depth);
+  let rt = random_tree(r, len - k, shape, stop, budget, depth + 1, max_depth);
   Tree::Node(k, Box::new(l), Box::new(rt))
 }
 
@@ -564,8 +564,8 @@ fn worst_rel(a: &[f64], b: &[f64], block: usize) -> (f64, usize, f64) {
 use spdcalc::{Frequency, Wavelength};
 
 fn pools_part(ctx: &mut Ctx) {
-  let pools: Vec<usize> = if ctx.thorough { vec![1, 2, 3, 4, 8, 16] } else { vec![1, 2, 4] };
-  let reps = if ctx.thorough { 5 } else { 1 };
+  let pools: Vec<usize> = if ctx.thorough { vec![1, 2, 3, 4, 8, 16] } else { vec![1, 2, 4, 8] };
+  let reps = if ctx.thorough { 5 } else { 2 };
   let cap = Duration::from_secs(if ctx.thorough { 600 } else { 240 });
 
   // ---- (a) traversal of the grids themselves through rayon (collect / enumerate)
@@ -655,9 +655,9 @@ fn pools_part(ctx: &mut Ctx) {
   // ---- (b) every `*_range` function: bit-identical arrays for every pool size
   let spdc = SPDC::default();
   let shapes: Vec<(usize, usize, bool)> = if ctx.thorough {
-    vec![(1, 1, true), (2, 3, true), (7, 5, true), (16, 16, false), (33, 20, false)]
+    vec![(1, 1, true), (2, 3, true), (7, 5, true), (16, 16, false), (33, 20, false), (64, 48, false)]
   } else {
-    vec![(2, 3, true), (9, 8, false)]
+    vec![(2, 3, true), (9, 8, false), (20, 20, false)]
   };
   let kinds = [RangeKind::Wavelength, RangeKind::Frequency, RangeKind::SumDiff, RangeKind::FlatWavelength, RangeKind::FlatFrequency];
   // Per-point evaluation is sequential (hence the arrays must be bit-identical) for every function
@@ -711,7 +711,6 @@ fn pools_part(ctx: &mut Ctx) {
   }
 
   // ---- (c) parallel reductions: 1e-12 relative to the single-thread result
-  type F1 = fn(f64) -> Complex<f64>;
   let f1s: [(&str, F1, f64, f64); 4] = [
     ("poly", |x| Complex::new(1.0 + x + 0.5 * x * x * x, 2.0 - x * x), -1.0, 2.0),
     ("gauss", |x| Complex::new((-x * x).exp(), x * (-0.5 * x * x).exp() + 1.0), -3.0, 2.5),
@@ -732,7 +731,6 @@ fn pools_part(ctx: &mut Ctx) {
       }
     }
   }
-  type F2 = fn(f64, f64) -> Complex<f64>;
   let f2s: [(&str, F2); 3] = [
     ("poly", |x, y| Complex::new(1.0 + x * y + x * x, 2.0 + y * y * y - x)),
     ("gauss", |x, y| Complex::new((-x * x - 0.5 * y * y).exp(), 1.0 + 0.3 * (x + y).sin())),
@@ -798,7 +796,7 @@ fn pools_part(ctx: &mut Ctx) {
   }
 
   // ---- (d) nested parallel regions complete (no deadlock), on every pool size including 1
-  let nested_pools: Vec<usize> = if ctx.thorough { vec![1, 2, 3, 4, 8, 16] } else { vec![1, 2] };
+  let nested_pools: Vec<usize> = if ctx.thorough { vec![1, 2, 3, 4, 8, 16] } else { vec![1, 2, 4] };
   for &k in nested_pools.iter() {
     for (name, n) in [("simpson200-in-jsi_range", if ctx.thorough { 12 } else { 6 }), ("simpson2d-in-jsi_singles_range", if ctx.thorough { 5 } else { 3 }), ("simpson2d-in-counts_singles", 3)] {
       let sp = spdc.clone();
@@ -849,6 +847,208 @@ fn reduce_verdict(ctx: &mut Ctx, what: &str, r: Result<Option<Complex<f64>>, ()>
 }
 
 // ------------------------------------------------------------------------------------------------
+// dense sweep: every parallel reduction × small grids (sides 1..12 and a few non-square / larger
+// ones) × EVERY pool size 1..=16, against the 1-thread result at 1e-12.  Small grids on many threads
+// are where hand-rolled work partitioning (per-worker blocks, chunking by `current_num_threads()`)
+// goes wrong; `install` makes `rayon::current_num_threads()` inside the crate see the pool size.
+
+type F1 = fn(f64) -> Complex<f64>;
+type F2 = fn(f64, f64) -> Complex<f64>;
+
+const SWEEP_F1: [(&str, F1, f64, f64); 2] = [
+  ("poly", |x| Complex::new(1.0 + x + 0.5 * x * x * x, 2.0 - x * x), -1.0, 2.0),
+  ("cis", |x| Complex::from_polar(1.0 + 0.1 * x, 0.7 * x), 0.0, 1.5),
+];
+const SWEEP_F2: [(&str, F2); 2] = [
+  ("poly", |x, y| Complex::new(1.0 + x * y + x * x, 2.0 + y * y * y - x)),
+  ("gauss", |x, y| Complex::new((-x * x - 0.5 * y * y).exp(), 1.0 + 0.3 * (x + y).sin())),
+];
+
+struct SweepData {
+  spdc: SPDC,
+  spectrum: spdcalc::jsa::JointSpectrum,
+  spectrum_gl: spdcalc::jsa::JointSpectrum,
+  x: (Frequency, Frequency),
+  y: (Frequency, Frequency),
+  grids: Vec<(usize, usize)>,
+  amp: Vec<Complex<f64>>,
+  amp_sw: Vec<Complex<f64>>,
+  taus: Vec<f64>,
+  divs1: Vec<usize>,
+  divs2: Vec<usize>,
+}
+
+#[derive(Clone, Debug)]
+enum Val {
+  /// a reduction: compared with the 1-thread value at 1e-12 relative
+  Num(Complex<f64>),
+  /// an array that must be bit-identical to the 1-thread array
+  Bits(Vec<u64>),
+  /// a traversal already compared with the sequential one inside the pool
+  Flag(bool),
+}
+
+/// every reduction / range evaluation / traversal on every grid, each guarded:
+/// (label, value or None = panicked)
+fn sweep_all(d: &SweepData) -> Vec<(String, Option<Val>)> {
+  let mut out: Vec<(String, Option<Val>)> = Vec::new();
+  let re = |x: f64| Val::Num(Complex::new(x, 0.0));
+  let bits = |v: Vec<f64>| Val::Bits(v.iter().map(|x| x.to_bits()).collect());
+  let hz = spdcalc::dim::ucum::HZ;
+  for &(nx, ny) in d.grids.iter() {
+    let range = FrequencySpace::new((d.x.0, d.x.1, nx), (d.y.0, d.y.1, ny));
+    let len = nx * ny;
+    let (j1, j2) = (&d.amp[..len], &d.amp_sw[..len]);
+    let g = format!("nx={} ny={}", nx, ny);
+    // HOM rate on synthetic amplitude arrays (cheap): every delay, with and without a given norm
+    for (i, &tau) in d.taus.iter().enumerate() {
+      out.push((format!("what=hom_rate {} tau={:e} norm=none", g, tau), guard(|| re(spdcalc::hom_rate(range, j1, j2, tau * S, None)))));
+      if i == 1 {
+        out.push((format!("what=hom_rate {} tau={:e} norm=2.5", g, tau), guard(|| re(spdcalc::hom_rate(range, j1, j2, tau * S, Some(2.5))))));
+      }
+    }
+    let series = guard(|| spdcalc::hom_rate_series(range, j1, j2, d.taus.iter().map(|t| *t * S)));
+    for (i, &tau) in d.taus.iter().enumerate() {
+      out.push((format!("what=hom_rate_series {} tau={:e}", g, tau), series.as_ref().and_then(|v| v.get(i).copied()).map(&re)));
+    }
+    // the real amplitudes through the SPDC entry points
+    if len <= 64 {
+      let sp = &d.spdc;
+      let series = guard(|| sp.hom_rate_series(d.taus.iter().map(|t| *t * S), range, Integrator::default()));
+      for (i, &tau) in d.taus.iter().enumerate() {
+        out.push((format!("what=SPDC::hom_rate_series {} tau={:e}", g, tau), series.as_ref().and_then(|v| v.get(i).copied()).map(&re)));
+      }
+      out.push((format!("what=SPDC::hom_visibility {}", g), guard(|| re(sp.hom_visibility(range, Integrator::default()).1))));
+    }
+    // grid traversal and range evaluation through rayon (arrays: bit-identical for every pool size)
+    {
+      let st = *range.steps();
+      let raw = Steps2D((*(st.0 .0 / (RAD / S)), *(st.0 .1 / (RAD / S)), nx), (*(st.1 .0 / (RAD / S)), *(st.1 .1 / (RAD / S)), ny));
+      out.push((format!("what=steps2d_par_collect {}", g), guard(|| {
+        let seq = flat(&raw.into_iter().collect::<Vec<_>>());
+        let par: Vec<(f64, f64)> = raw.into_par_iter().collect();
+        let en: Vec<(usize, (f64, f64))> = raw.into_par_iter().enumerate().collect();
+        let pe: Vec<(f64, f64)> = en.iter().map(|p| p.1).collect();
+        Val::Flag(bits_eq(&flat(&par), &seq) && bits_eq(&flat(&pe), &seq) && en.iter().enumerate().all(|(i, p)| p.0 == i))
+      })));
+      let (a, b) = (raw.0 .0, raw.0 .1);
+      out.push((format!("what=steps_par_collect a={:e} b={:e} n={}", a, b, len), guard(|| {
+        let seq: Vec<f64> = Steps(a, b, len).into_iter().collect();
+        let en: Vec<(usize, f64)> = Steps(a, b, len).into_par_iter().enumerate().collect();
+        let scale = a.abs().max(b.abs());
+        Val::Flag(en.len() == seq.len() && en.iter().enumerate().all(|(i, p)| p.0 == i && rel_close(p.1, seq[i], 1e-14, scale)))
+      })));
+    }
+    if len <= 150 {
+      let sp = &d.spectrum;
+      out.push((format!("what=jsa_range {} integrator=simpson50", g), guard(|| bits(cbits(&sp.jsa_range(range))))));
+      out.push((format!("what=jsi_range {} integrator=simpson50 space=sumdiff", g), guard(|| bits(jbits(&sp.jsi_range(range.as_sum_diff_space()))))));
+      out.push((format!("what=jsi_normalized_range {} integrator=simpson50 space=wavelength", g), guard(|| bits(sp.jsi_normalized_range(range.as_wavelength_space())))));
+    }
+    if len <= 40 {
+      let sp = &d.spectrum_gl;
+      out.push((format!("what=jsi_singles_range {} integrator=gauss-legendre6", g), guard(|| bits(jbits(&sp.jsi_singles_range(range))))));
+    }
+    // count rates (division widths need ≥ 2 points per axis)
+    if nx >= 2 && ny >= 2 && len <= 150 {
+      let sp = &d.spdc;
+      out.push((format!("what=counts_coincidences {} integrator=simpson10", g), guard(|| re(*(sp.counts_coincidences(range, Integrator::Simpson { divs: 10 }) / hz)))));
+      out.push((format!("what=counts_singles_signal {} integrator=simpson8", g), guard(|| re(*(sp.counts_singles_signal(range, Integrator::Simpson { divs: 8 }) / hz)))));
+      out.push((format!("what=counts_singles_idler {} integrator=simpson8", g), guard(|| re(*(sp.counts_singles_idler(range, Integrator::Simpson { divs: 8 }) / hz)))));
+      if len <= 36 {
+        let e = guard(|| sp.efficiencies(range, Integrator::Simpson { divs: 8 }));
+        out.push((format!("what=efficiencies.symmetric {} integrator=simpson8", g), e.as_ref().map(|e| re(e.symmetric))));
+        out.push((format!("what=efficiencies.coincidences {} integrator=simpson8", g), e.as_ref().map(|e| re(*(e.coincidences / hz)))));
+      }
+    }
+  }
+  for &divs in d.divs1.iter() {
+    for (name, f, a, b) in SWEEP_F1.iter().copied() {
+      out.push((format!("what=simpson1d f={} a={} b={} divs={}", name, a, b, divs), guard(|| Val::Num(Integrator::Simpson { divs }.integrate(f, a, b)))));
+    }
+  }
+  for &divs in d.divs2.iter() {
+    for (name, f) in SWEEP_F2.iter().copied() {
+      out.push((format!("what=simpson2d f={} rect=(-1,1.5)x(0.25,2) divs={}", name, divs), guard(|| Val::Num(Integrator::Simpson { divs }.integrate2d(f, -1.0, 1.5, 0.25, 2.0)))));
+    }
+  }
+  out
+}
+
+fn sweep_part(ctx: &mut Ctx) {
+  let spdc = SPDC::default();
+  let base = *spdc.optimum_range(10).steps();
+  let mut grids: Vec<(usize, usize)> = (1..=12).map(|n| (n, n)).collect();
+  grids.extend([(1, 7), (2, 1), (3, 7), (7, 2), (13, 5), (5, 11), (17, 9), (16, 16), (20, 17)]);
+  if ctx.thorough {
+    grids.extend([(13, 13), (14, 14), (15, 15), (9, 4), (4, 9), (19, 3), (23, 11), (31, 8), (32, 32)]);
+  }
+  // two extra seeded shapes
+  for _ in 0..2 {
+    grids.push((ctx.rng.between(1, 14), ctx.rng.between(1, 14)));
+  }
+  let maxlen = grids.iter().map(|g| g.0 * g.1).max().unwrap_or(0);
+  let amp: Vec<Complex<f64>> = (0..maxlen).map(|_| Complex::from_polar(0.5 + ctx.rng.unit(), std::f64::consts::TAU * ctx.rng.unit())).collect();
+  let amp_sw: Vec<Complex<f64>> = (0..maxlen).map(|_| Complex::from_polar(0.5 + ctx.rng.unit(), std::f64::consts::TAU * ctx.rng.unit())).collect();
+  let data = std::sync::Arc::new(SweepData {
+    spectrum: spdc.joint_spectrum(Integrator::default()),
+    spectrum_gl: spdc.joint_spectrum(Integrator::GaussLegendre { degree: 6 }),
+    spdc,
+    x: (base.0 .0, base.0 .1),
+    y: (base.1 .0, base.1 .1),
+    grids,
+    amp,
+    amp_sw,
+    taus: vec![0.0, 1.3e-13, -4.0e-13],
+    divs1: if ctx.thorough { vec![128, 129, 130, 131, 132, 135, 144, 150, 160, 200, 256, 1000] } else { vec![128, 130, 131, 144, 200] },
+    divs2: if ctx.thorough { vec![4, 6, 8, 10, 12, 14, 16, 18, 20, 24, 32, 64] } else { vec![4, 6, 8, 10, 12, 16, 24] },
+  });
+  let cap = Duration::from_secs(if ctx.thorough { 900 } else { 300 });
+  let reps = if ctx.thorough { 3 } else { 1 };
+  let mut reference: Option<Vec<(String, Option<Val>)>> = None;
+  for k in 1..=16usize {
+    for rep in 0..reps {
+      if k == 1 && rep > 0 {
+        continue;
+      }
+      let d = data.clone();
+      let r = in_pool(k, cap, move || sweep_all(&d));
+      match r {
+        Err(()) => ctx.s("C15.reduce", false, "sweep/timeout", &format!("threads={} rep={} cap_s={}", k, rep, cap.as_secs())),
+        Ok(None) => ctx.s("C15.reduce", false, "sweep/panic", &format!("threads={} rep={}", k, rep)),
+        Ok(Some(v)) => {
+          let r0 = if k == 1 { v.clone() } else { reference.clone().unwrap_or_default() };
+          for ((label, val), (_, v0)) in v.iter().zip(r0.iter()) {
+            let what = label.split(' ').next().unwrap_or("").trim_start_matches("what=").to_string();
+            ctx.count(&format!("sweep/{}", what));
+            let tail = format!("{} threads={} rep={}", label, k, rep);
+            match (val, v0) {
+              (None, _) => ctx.s("C15.reduce", false, &format!("sweep/{}/panic", what), &tail),
+              (Some(_), None) => {} // the 1-thread run itself failed: reported for threads=1
+              (Some(Val::Flag(ok)), _) => ctx.s("C15.traverse", *ok, &format!("sweep/{}/{}", what, if *ok { "ok" } else { "differs" }), &tail),
+              (Some(Val::Bits(b)), Some(Val::Bits(b0))) => {
+                let ok = b == b0;
+                ctx.s("C15.range", ok, &format!("sweep/{}/{}", what, if ok { "ok" } else { "not-bit-identical" }), &tail);
+              }
+              (Some(Val::Num(z)), Some(Val::Num(z0))) => {
+                let finite = z.re.is_finite() && z.im.is_finite();
+                let e = crel(*z0, *z);
+                let ok = finite && e <= 1e-12;
+                ctx.s("C15.reduce", ok, &format!("sweep/{}/{}", what, if ok { "ok" } else if !finite { "non-finite" } else { "differs" }), &format!("{} rel={:.3e} value=({:e},{:e}) one_thread=({:e},{:e})", tail, e, z.re, z.im, z0.re, z0.im));
+              }
+              _ => ctx.s("C15.reduce", false, &format!("sweep/{}/kind-mismatch", what), &tail),
+            }
+          }
+          if k == 1 {
+            reference = Some(v);
+          }
+        }
+      }
+    }
+  }
+}
+
+// ------------------------------------------------------------------------------------------------
 
 pub fn run(ctx: &mut Ctx) {
   let which = ctx.extra.first().cloned().unwrap_or_else(|| "all".into());
@@ -857,6 +1057,9 @@ pub fn run(ctx: &mut Ctx) {
   }
   if which == "all" || which == "pools" {
     pools_part(ctx);
+  }
+  if which == "all" || which == "sweep" {
+    sweep_part(ctx);
   }
 }
 
@@ -934,7 +1137,9 @@ fn split_part(ctx: &mut Ctx) {
     }
   }
 
-  // ---- random trees
+  // ---- random trees.  Depth is capped at 400 (rayon's bridge halves, so it never exceeds
+  // ⌈log2 len⌉ ≤ 14 here); `depth=<n>` as an extra argument raises the cap for experiments.
+  let max_depth: usize = ctx.extra.iter().find_map(|a| a.strip_prefix("depth=").and_then(|v| v.parse().ok())).unwrap_or(400);
   let big = if ctx.thorough { 10_000 } else { 600 };
   let shapes = [Shape::Uniform, Shape::Bisect, Shape::Edge, Shape::Contract];
   for i in 0..ctx.n {
@@ -947,7 +1152,7 @@ fn split_part(ctx: &mut Ctx) {
     };
     let stop = *ctx.rng.pick(&[0.0, 0.02, 0.1, 0.3]);
     let mut budget = if shape == Shape::Contract { 200 } else { 20_000 };
-    let t = random_tree(&mut ctx.rng, n, shape, stop, &mut budget, 0);
+    let t = random_tree(&mut ctx.rng, n, shape, stop, &mut budget, 0, max_depth);
     let a = gen_endpoint(&mut ctx.rng);
     let b = gen_endpoint(&mut ctx.rng);
     // K lines of big cases are long: emit them for moderate sizes, keep S on all
@@ -965,7 +1170,7 @@ fn split_part(ctx: &mut Ctx) {
     let ny = ctx.rng.below(m + 1);
     let stop = *ctx.rng.pick(&[0.0, 0.02, 0.1, 0.3]);
     let mut budget = if shape == Shape::Contract { 200 } else { 20_000 };
-    let t = random_tree(&mut ctx.rng, nx * ny, shape, stop, &mut budget, 0);
+    let t = random_tree(&mut ctx.rng, nx * ny, shape, stop, &mut budget, 0, max_depth);
     let e: Vec<f64> = (0..4).map(|_| gen_endpoint(&mut ctx.rng)).collect();
     let emit = nx * ny <= 1_500 || i % 8 == 0;
     tree2_case(ctx, (e[0], e[1], nx), (e[2], e[3], ny), &t, &format!("random/{:?}", shape), emit);
